@@ -57,6 +57,9 @@ func TestVerifC12Outage(t *testing.T) {
 	for _, e := range c12Entries("redis") {
 		for try := 0; try < 30; try++ {
 			if a := e.gen(g); a != nil {
+				if c12IdlePipe(a) {
+					continue // an empty pipeline / a failing fn never reaches the server
+				}
 				plan = append(plan, planned{e, a})
 				break
 			}
@@ -137,4 +140,13 @@ func TestVerifC12Outage(t *testing.T) {
 	m.Count("methods_with_connection_error_on_both_sides", int64(connErrs))
 	m.Count("methods_not_reaching_the_server", int64(refOK))
 	m.Sample(map[string]any{"methods_called_during_outage": len(plan), "connection_errors_on_both_sides": connErrs})
+}
+
+// c12IdlePipe: a generated Pipelined tuple whose function queues nothing or fails before Exec.
+func c12IdlePipe(a []any) bool {
+	if len(a) == 0 {
+		return false
+	}
+	sp, ok := a[0].(c12PipeSpec)
+	return ok && (len(sp.Ops) == 0 || sp.Fail)
 }
